@@ -44,6 +44,25 @@ def styleSetArg (j : Json) : R (Option (List Style)) :=
     let added ← (← fArr v "add").toList.mapM styleOf
     return some (styleSetOf base removed added)
 
+/-- field `emptied` of the answers of `c11.render` for a request with `styles`: the decider of the hypothesis of
+`Props.C11.style_set_emptied` (`emptiesB`, `empties_decides`) on the base and the `remove` calls of the request - compared
+with whether the real `StyleSet` object holds no style after the same calls -/
+def emptiedArg (j : Json) : R (Option Bool) :=
+  match fOpt j "styles" with
+  | none => .ok none
+  | some v => do
+    let base ← (match (← fStr v "base") with
+      | "empty" => pure []
+      | "default" => pure defaultStyleList
+      | b => throw s!"unknown style set base {b}" : R (List Style))
+    let removed ← (← fArr v "remove").toList.mapM asChars
+    return some (emptiesB base removed)
+
+def withEmptied (e : Option Bool) (ans : Json) : Json :=
+  match e with
+  | some b => ans.setObjVal! "emptied" (.bool b)
+  | none => ans
+
 /-- `{fg: code|null, bg: code|null, opts: [[code, name], …]}` -/
 def pastelOf (j : Json) : R PastelStyle := do
   let opts ← (← fArr j "opts").toList.mapM (fun p => do
@@ -266,15 +285,16 @@ def handle (m : String) (j : Json) : Option (R Json) :=
       let tab ← tableOf j
       let style ← optStyleOf j "style"
       let mode ← fStr j "mode"
+      let em ← emptiedArg j
       match formatterRegistry (← styleSetArg j) with
-      | .error e => return jErr e
+      | .error e => return withEmptied em (jErr e)
       | .ok reg =>
         let st ← stackOf reg j
         if !covered tab msg then return Json.mkObj [("err", .str "UnresolvedTag")]
         let rv := resolverOf reg tab
         match mode with
-        | "ansi" => return withWf j rv msg (jRender (ansiFormat rv st msg style))
-        | "plain" => return withWf j rv msg (jRender (plainFormat rv st msg))
+        | "ansi" => return withEmptied em (withWf j rv msg (jRender (ansiFormat rv st msg style)))
+        | "plain" => return withEmptied em (withWf j rv msg (jRender (plainFormat rv st msg)))
         | _ => throw s!"unknown mode {mode}"
   | "c11.write" => some do
       let text ← fChars j "text"
